@@ -25,6 +25,7 @@ type CliCfg struct {
 	WriteFaults []int
 	DialFaults  bool // a dial may be refused
 	SrvClose    bool // the server may close right after replying
+	SrvStray    bool // the server sends an unsolicited request message before every response (the client must skip it)
 	CheckFaults bool // apply the C11 recovery oracle
 	AfterClose  bool // after Close: a further call must fail, second Close must not panic
 	ReadSizes   []int
@@ -73,6 +74,13 @@ func (w *cliWorld) echoServer(c *Conn) {
 		resp := kmip.ResponseMessage{
 			Header:    kmip.ResponseHeader{ProtocolVersion: req.Header.ProtocolVersion, BatchCount: 1},
 			BatchItem: []kmip.ResponseBatchItem{{Operation: req.BatchItem[0].Operation, ResponsePayload: pl}},
+		}
+		if w.cfg.SrvStray {
+			stray := kmip.NewRequestMessage(kmip.V1_4, &payloads.ActivateRequestPayload{UniqueIdentifier: "server-originated"})
+			if _, err := c.Write(ttlv.MarshalTTLV(&stray)); err != nil {
+				_ = c.Close()
+				return
+			}
 		}
 		if _, err := c.Write(ttlv.MarshalTTLV(&resp)); err != nil {
 			_ = c.Close()
@@ -208,6 +216,7 @@ func init() {
 	cli("cli-par-2", "two concurrent callers A and B", CliCfg{Callers: [][]Call{{{ID: "A"}}, {{ID: "B"}}}})
 	cli("cli-par-cancel", "caller A (cancellable) concurrent with caller B, then C after B", CliCfg{Callers: [][]Call{{{ID: "A", Ctx: "cancel"}}, {{ID: "B"}, {ID: "C"}}}})
 	cli("cli-par-3", "three concurrent callers, one cancellable", CliCfg{Callers: [][]Call{{{ID: "A", Ctx: "cancel"}}, {{ID: "B"}}, {{ID: "C"}}}})
+	cli("cli-stray-requests", "the server sends an unsolicited request message before every response; callers A (cancellable) and B, then C", CliCfg{SrvStray: true, Callers: [][]Call{{{ID: "A", Ctx: "cancel"}, {ID: "C"}}, {{ID: "B"}}}})
 	cli("cli-negotiate-cancel", "dial with version discovery, then A cancellable, then B", CliCfg{Negotiate: true, Callers: [][]Call{{{ID: "A", Ctx: "cancel"}, {ID: "B"}}}})
 	// C11
 	rf := []int{FEOF, FReset, FShort}
